@@ -384,5 +384,14 @@ def r14_8(ctx):
     delegate(ctx, c03.r03_7, lambda c: True)
 
 
+def r14_9(ctx):
+    """R14.9 the `ranges` channel reports the range the evaluator uses - the first range whose condition holds: the range
+    search of get_ranges() stops at the first active entry (a fresh server evaluates the same tree to the same range)."""
+    from .common import first_match_loops
+    n = first_match_loops(ctx, ["kconfserver.core:get_ranges.<locals>.get_active_range"], "the client is told another range than the one that clamps the value")
+    if n < 1:
+        raise AnalysisError("range search of get_ranges not found")
+
+
 def rules():
-    return [("R14.1", r14_1, 9), ("R14.2", r14_2, 5), ("R14.3", r14_3, 3), ("R14.4", r14_4, 20), ("R14.5", r14_5, 10), ("R14.6", r14_6, 5), ("R14.7", r14_7, 1), ("R14.8", r14_8, 6)]
+    return [("R14.9", r14_9, 1), ("R14.1", r14_1, 9), ("R14.2", r14_2, 5), ("R14.3", r14_3, 3), ("R14.4", r14_4, 20), ("R14.5", r14_5, 10), ("R14.6", r14_6, 5), ("R14.7", r14_7, 1), ("R14.8", r14_8, 6)]
